@@ -295,6 +295,22 @@ def rule_D12(body):
     return body, applied
 
 
+def rule_D13(body):
+    """D13: `for x in RECV.iter().filter(|y| y.METHOD()) { BODY }` is written as `for x in RECV.iter() { if x.METHOD() { BODY } }` —
+    the definition of Iterator::filter for a side-effect-free predicate that is a method call on the item (auto-deref makes
+    `y.METHOD()` on `&&T` and `x.METHOD()` on `&T` the same call).  RECV must be a plain path; exactly one occurrence."""
+    m = mask(body)
+    hits = list(re.finditer(r"for\s+([A-Za-z_][A-Za-z0-9_]*)\s+in\s+([A-Za-z_][A-Za-z0-9_]*(?:\s*\.\s*[A-Za-z_0-9]+)*)\s*\.iter\(\)\s*\.filter\(\s*\|\s*([A-Za-z_][A-Za-z0-9_]*)\s*\|\s*\3\s*\.\s*([A-Za-z_][A-Za-z0-9_]*)\(\)\s*\)\s*\{", m))
+    if len(hits) != 1:
+        raise LostAnchor(f"rule D13: `for x in RECV.iter().filter(|y| y.method()) {{` matched {len(hits)} times")
+    mm = hits[0]
+    var, recv, _, method = mm.groups()
+    open_brace = mm.end() - 1
+    close = match_close(m, open_brace)          # index just after the loop's `}`
+    new = (body[:mm.start()] + f"for {var} in {recv}.iter() {{ if {var}.{method}() " + body[open_brace:close] + " }" + body[close:])
+    return new, [("D13", re.sub(r"\s+", " ", body[mm.start():open_brace + 1]), f"for {var} in {recv}.iter() {{ if {var}.{method}() {{ .. }} }}")]
+
+
 def rule_D5b(body):
     """D5 (closure body): `.map(|x| EXPR)` with EXPR not a block is written `.map(|x| { EXPR })`, so that a ghost
     signature can be attached to the closure; same value.  Every occurrence, at least one."""
@@ -362,7 +378,7 @@ def rule_D4t(body):
     return pat.sub("range_from_element(", body), [("D4", "<Option<&SubtypeElements> as TryInto<PerVisibleRangeConstraints>>::try_into(", "range_from_element(")] * n
 
 
-RULES = {"D2": rule_D2, "D5": rule_D5, "D5c": rule_D5c, "D5m": rule_D5m, "D9": rule_D9, "D4t": rule_D4t, "D10": rule_D10, "D5b": rule_D5b, "D12": rule_D12}
+RULES = {"D2": rule_D2, "D5": rule_D5, "D5c": rule_D5c, "D5m": rule_D5m, "D9": rule_D9, "D4t": rule_D4t, "D10": rule_D10, "D5b": rule_D5b, "D12": rule_D12, "D13": rule_D13}
 
 
 class FnUnit:
